@@ -118,6 +118,9 @@ func TestGovcPagerLinksReplay(t *testing.T) {
 		{"regular", "http://example.com/art?page=2", `<a href="/art?page=1">1</a> 2 <a href="/art?page=3">3</a> <a href="/art?page=4">4</a> <a href="/art?page=3">Next</a> <a href="/art?page=1">Prev</a>`},
 		{"upper-case-host", "http://example.com/art?page=2", `<a href="http://EXAMPLE.com/art?page=1">1</a> 2 <a href="http://EXAMPLE.com/art?page=3">3</a> <a href="http://EXAMPLE.com/art?page=3">Next</a>`},
 		{"javascript-last-page", "http://example.com/art?page=3", `<a href="javascript:go(1)">1</a> <a href="javascript:go(2)">2</a> 3`},
+		{"directory-url-first-page", "http://example.com/foo/bar/", `1 <a href="/foo/bar/2">2</a> <a href="/foo/bar/3">3</a> <a href="/foo/bar/4">4</a>`},
+		{"directory-url-last-page", "http://example.com/foo/bar/4/", `<a href="/foo/bar/">1</a> <a href="/foo/bar/2/">2</a> <a href="/foo/bar/3/">3</a> 4`},
+		{"directory-url-middle-page", "https://example.com/foo/bar/2/", `<a href="/foo/bar/">1</a> 2 <a href="/foo/bar/3/">3</a> <a href="/foo/bar/4/">4</a>`},
 		{"javascript-prev", "http://example.com/art?page=3", `<a href="/art?page=1">1</a> <a href="javascript:go(2)">2</a> 3 <a href="/art?page=4">4</a>`},
 	}
 	evals, nontrivial := 0, 0
